@@ -249,10 +249,19 @@ def process_case(ctx, rng):
     elif fault < 0.28:
         argv = argv[:1] + ["nonexistent_input.asm"] + argv[1:]
         expect_fail = "input-missing"
+    elif fault < 0.34:
+        # the output opens but cannot be written (intelhex is never empty: it always ends with an EOF record)
+        argv += ["--", "-f", "intelhex", "-o", "/dev/full"]
+        expect_fail = "output-device-full"
+    elif fault < 0.40:
+        # file-size limit 0: every write to a regular file fails with EFBIG
+        argv += ["--", "-f", "intelhex", "-o", "limited.hex"]
+        expect_fail = "output-file-size-limit"
     for g in model["groups"]:
         if g.get("output") and g["output"].startswith("dir/"):
             extra_dirs.append("dir")
-    res = runner.run_cli(ctx.cli("rel"), argv[1:], files, extra_dirs=extra_dirs, cpu_s=10, wall_s=60)
+    res = runner.run_cli(ctx.cli("rel"), argv[1:], files, extra_dirs=extra_dirs, cpu_s=10, wall_s=60,
+                         fsize=0 if expect_fail == "output-file-size-limit" else 1 << 30)
     ctx.evaluated()
     ctx.monitor("u1-process")
     job = {"argv": argv, "files": lib.files_json(files), "extra_dirs": extra_dirs, "mode": "process"}
@@ -288,7 +297,9 @@ def process_case(ctx, rng):
         if not has_err:
             ctx.violation("u1-process", {"kind": "exit-1-without-diagnostic"}, job, "error diagnostic", res["stderr"][-300:])
             return
-        if created and expect_fail not in ("output-dir-missing", "output-is-directory"):
+        if expect_fail in ("output-device-full", "output-file-size-limit"):
+            created = [c for c in created if len(res["created"][c]) > 0]       # earlier groups may have created empty files
+        if created and expect_fail not in ("output-dir-missing", "output-is-directory", "output-device-full"):
             ctx.violation("u1-process", {"kind": "exit-1-with-files-created"}, job, "no files", {"created": created, "stderr": res["stderr"][:300]})
             return
         ctx.count("process:fail" + (":" + expect_fail if expect_fail else ""))
